@@ -308,13 +308,17 @@ class ServiceApp(ApplicationIOController, WhoIsIAmServices, ReadWritePropertySer
     pass
 
 
+class PlainServiceApp(ApplicationIOController, WhoIsIAmServices, ReadWritePropertyServices, ReadWritePropertyMultipleServices):
+    """the same without change-of-value reporting"""
+
+
 class ServiceDevice:
     """device object + application with RP/WP/RPM/COV services + the usual layers on a VLAN node"""
 
-    def __init__(self, lan, address, **device_kw):
+    def __init__(self, lan, address, app_class=None, **device_kw):
         self.address = Address(address)
         self.device = make_device(int(address), **device_kw)
-        self.app = ServiceApp(self.device)
+        self.app = (app_class or ServiceApp)(self.device)
         self.asap = ApplicationServiceAccessPoint()
         self.smap = StateMachineAccessPoint(self.device)
         self.smap.deviceInfoCache = self.app.deviceInfoCache
